@@ -540,8 +540,8 @@ theorem dijkstraLoop_spec :
 
 /-- **ShortestPathTree** (Dijkstra): for a valid source, `distTo`/`PathTo` are the shortest distances with
 paths of exactly that weight; unreachable vertices get `(nil, -1, false)`. -/
-theorem spt_spec (hs : s < g.n) :
-    ∃ t, g.shortestPathTree (s : Int) = .ok t ∧
+theorem spt_spec_sz (hs : s < g.n) :
+    ∃ t, g.shortestPathTree (s : Int) = .ok t ∧ t.distTo.size = g.n ∧
       ∀ v, v < g.n →
         (t.pathTo (v : Int) = .ok none ∧ ¬ ∃ q, IsEdgeWalk g s v q) ∨
         (∃ p d, t.pathTo (v : Int) = .ok (some (p, d)) ∧ IsEdgeWalk g s v p ∧ walkWeight p = d ∧
@@ -615,7 +615,7 @@ theorem spt_spec (hs : s < g.n) :
     show cntF (Array.replicate g.n false) ≤ g.n + 1
     have := cntF_le_size (Array.replicate g.n false)
     simp at this; omega)
-  refine ⟨t, ?_, ?_⟩
+  refine ⟨t, ?_, hinv.dsz, ?_⟩
   · unfold Graph.shortestPathTree Graph.shortestPathTreeFuel
     simp only [Int.toNat_natCast]
     rw [if_pos (by simp [hs])]
@@ -665,6 +665,30 @@ theorem spt_spec (hs : s < g.n) :
         obtain ⟨dv, k1, k2⟩ := hlow v q hq
         rw [hd] at k1; cases k1; exact k2
 
+theorem spt_spec (hs : s < g.n) :
+    ∃ t, g.shortestPathTree (s : Int) = .ok t ∧
+      ∀ v, v < g.n →
+        (t.pathTo (v : Int) = .ok none ∧ ¬ ∃ q, IsEdgeWalk g s v q) ∨
+        (∃ p d, t.pathTo (v : Int) = .ok (some (p, d)) ∧ IsEdgeWalk g s v p ∧ walkWeight p = d ∧
+          ∀ q, IsEdgeWalk g s v q → d ≤ walkWeight q) := by
+  obtain ⟨t, h1, _, h3⟩ := spt_spec_sz hg hdw hnn s hs
+  exact ⟨t, h1, h3⟩
+
 end
+
+/-- `PathTo(v)` with `v` outside `[0, n)` indexes `distTo` out of range -/
+theorem pathTo_out_of_range (t : SPT) (n : Nat) (hsz : t.distTo.size = n) (v : Int)
+    (hv : ¬ (0 ≤ v ∧ v < (n : Int))) : t.pathTo v = .panic := by
+  unfold SPT.pathTo
+  by_cases h0 : 0 ≤ v
+  · rw [if_pos h0]
+    have : t.distTo[v.toNat]? = none := by
+      apply Array.getElem?_eq_none_iff.2
+      rw [hsz]
+      have : ¬ v < (n : Int) := fun h => hv ⟨h0, h⟩
+      omega
+    rw [this]
+  · rw [if_neg h0]
+
 
 end AlgoVerif.C14
